@@ -755,6 +755,61 @@ pub fn epserde_derive(input: TokenStream) -> TokenStream {
                     }
                 })
                 .collect::<Vec<_>>();
+            // If there are bounded type parameters which are types of fields
+            // of some variant, we need to impose the same bounds on the
+            // SerType and on the DeserType, as in the case of structures.
+            derive_input.generics.params.iter().for_each(|param| {
+                if let GenericParam::Type(t) = param {
+                    let ty = &t.ident;
+                    if !t.bounds.is_empty()
+                        && types_with_generics
+                            .iter()
+                            .any(|x| *ty == x.to_token_stream().to_string())
+                    {
+                        // The deserialization type of a zero-copy enum is a
+                        // reference to the enum itself, so it does not
+                        // involve the DeserType of the parameters.
+                        if !is_zero_copy {
+                            let mut lifetimes = Punctuated::new();
+                            lifetimes.push(GenericParam::Lifetime(LifetimeParam {
+                                attrs: vec![],
+                                lifetime: syn::Lifetime::new(
+                                    "'epserde_desertype",
+                                    proc_macro2::Span::call_site(),
+                                ),
+                                colon_token: None,
+                                bounds: Punctuated::new(),
+                            }));
+                            where_clause_des
+                                .predicates
+                                .push(WherePredicate::Type(PredicateType {
+                                    lifetimes: Some(BoundLifetimes {
+                                        for_token: token::For::default(),
+                                        lt_token: token::Lt::default(),
+                                        lifetimes,
+                                        gt_token: token::Gt::default(),
+                                    }),
+                                    bounded_ty: syn::parse_quote!(
+                                        <#ty as epserde::deser::DeserializeInner>::DeserType<'epserde_desertype>
+                                    ),
+                                    colon_token: token::Colon::default(),
+                                    bounds: t.bounds.clone(),
+                                }));
+                        }
+                        where_clause_ser
+                            .predicates
+                            .push(WherePredicate::Type(PredicateType {
+                                lifetimes: None,
+                                bounded_ty: syn::parse_quote!(
+                                    <#ty as epserde::ser::SerializeInner>::SerType
+                                ),
+                                colon_token: token::Colon::default(),
+                                bounds: t.bounds.clone(),
+                            }));
+                    }
+                }
+            });
+
             let tag = (0..variants.len()).collect::<Vec<_>>();
 
             if is_zero_copy {
